@@ -76,14 +76,25 @@ func VP_C19_Traverse() {
 		kids[i] = append([]*Node(nil), nd.Children...)
 	}
 	var pre, post []*Node
-	for nd := range root.PreOrder() {
+	preSeq, postSeq := root.PreOrder(), root.PostOrder()
+	for nd := range preSeq {
 		pre = append(pre, nd)
 	}
-	for nd := range root.PostOrder() {
+	for nd := range postSeq {
 		post = append(post, nd)
 	}
 	vpAssert(vpSameNodes(pre, vpPre(root, nil)), "PreOrder equals the recursive pre-order")
 	vpAssert(vpSameNodes(post, vpPost(root, nil)), "PostOrder equals the recursive post-order")
+	// the iterator values are functions: ranging over the same value again is
+	// another complete traversal
+	var pre2, post2 []*Node
+	for nd := range preSeq {
+		pre2 = append(pre2, nd)
+	}
+	for nd := range postSeq {
+		post2 = append(post2, nd)
+	}
+	vpAssert(vpSameNodes(pre2, pre) && vpSameNodes(post2, post), "ranging over the same iterator value again gives the same traversal")
 	vpAssert(len(pre) == n && len(post) == n, "every node exactly once")
 	same := true
 	for i, nd := range nodes {
@@ -109,12 +120,14 @@ func VP_C18_Traversal() {
 	}
 	stop := vpChoice("stop", n)
 	var got []*Node
+	var stopped func(func(*Node) bool)
 	after := 0
 	p := vpPanics(func() {
 		seq := root.PreOrder()
 		if post {
 			seq = root.PostOrder()
 		}
+		stopped = seq
 		declined := false
 		seq(func(nd *Node) bool {
 			if declined {
@@ -132,6 +145,15 @@ func VP_C18_Traversal() {
 	vpAssert(!p, "stopping a traversal early does not panic")
 	vpAssert(after == 0, "no callback after the consumer declined")
 	vpAssert(vpSameNodes(got, full[:stop+1]), "the nodes seen are the leading nodes of the full traversal")
+	// the same iterator value ranged over again after the early stop is a new,
+	// uninterrupted run
+	var again []*Node
+	p = vpPanics(func() {
+		for nd := range stopped {
+			again = append(again, nd)
+		}
+	})
+	vpAssert(!p && vpSameNodes(again, full), "the same iterator run again after an early stop yields the full traversal")
 	// the same through a range statement with break (compiler-generated yield wrapper)
 	var got2 []*Node
 	p = vpPanics(func() {
@@ -232,5 +254,56 @@ func VP_C19_Nested() {
 		}
 	}
 	vpAssert(vpSameNodes(outer, wantPost), "an outer PostOrder is not disturbed by traversals run inside its loop")
+	vpReach("end")
+}
+
+// VP_C19_Wide: a node with `width` children (more than any 8- or 16-bit child
+// counter holds), the last of which has a child of its own: both traversals
+// visit every node once in the documented order.
+func VP_C19_Wide() {
+	w := vpCase("width")
+	root := &Node{}
+	kids := make([]*Node, w)
+	for i := range kids {
+		kids[i] = &Node{}
+	}
+	root.Children = kids
+	leaf := &Node{}
+	kids[w-1].Children = []*Node{leaf}
+	i, ok := 0, true
+	for nd := range root.PreOrder() {
+		switch {
+		case i == 0:
+			ok = ok && nd == root
+		case i <= w:
+			ok = ok && nd == kids[i-1]
+		default:
+			ok = ok && i == w+1 && nd == leaf
+		}
+		i++
+		if i > w+4 {
+			break
+		}
+	}
+	vpAssert(ok && i == w+2, "PreOrder over a very wide node: root, the children in slice order, then the grandchild")
+	i, ok = 0, true
+	for nd := range root.PostOrder() {
+		switch {
+		case i < w-1:
+			ok = ok && nd == kids[i]
+		case i == w-1:
+			ok = ok && nd == leaf
+		case i == w:
+			ok = ok && nd == kids[w-1]
+		default:
+			ok = ok && i == w+1 && nd == root
+		}
+		i++
+		if i > w+4 {
+			break
+		}
+	}
+	vpAssert(ok && i == w+2, "PostOrder over a very wide node")
+	vpObserveInt("nodes", i)
 	vpReach("end")
 }
